@@ -313,3 +313,66 @@ fn run(cmd: &str, args: &Args, gs: Vec<&'static dyn GrammarUnderTest>) -> i32 {
         }
     }
 }
+
+// ---------------------------------------------------------------------------------------
+// libFuzzer entry (thorough tier): one in-process function over the compiled corpus
+
+pub struct FuzzWorld {
+    pub world: World,
+    pub ctx: Ctx,
+    pub pairs: Vec<(usize, usize)>,
+}
+
+pub fn fuzz_init(gs: Vec<&'static dyn GrammarUnderTest>) -> FuzzWorld {
+    std::panic::set_hook(Box::new(|info| {
+        // keep the violation document visible, silence the panics the oracles catch on purpose
+        let msg = info.payload().downcast_ref::<String>().cloned().unwrap_or_default();
+        if msg.starts_with("VIOLATION-DOC") {
+            eprintln!("{}", msg);
+        }
+    }));
+    let grammars: Vec<GInfo> = gs.into_iter().map(GInfo::new).collect();
+    let mut pairs = vec![];
+    for (gi, g) in grammars.iter().enumerate() {
+        if g.g.family() == "options" && !g.g.options().is_empty() {
+            continue;
+        }
+        for r in 0..g.rules.len() {
+            pairs.push((gi, r));
+        }
+    }
+    let mut ctx = replay_ctx("C01");
+    ctx.ev.frozen = true; // no bookkeeping inside the fuzz loop
+    FuzzWorld { world: World { grammars }, ctx, pairs }
+}
+
+/// bytes -> (grammar, rule, input): two bytes select the pair, one byte the decoding (tape-
+/// driven sentence or raw text), the rest is the tape / the text.  Oracles: C01 (verdict and
+/// offset against pest / the reference), C03 (check vs parse), C09 (totality, offsets).
+/// Listed findings are tolerated in-target so that the campaign goes on behind them.
+pub fn fuzz_one(fw: &mut FuzzWorld, data: &[u8]) {
+    if data.len() < 3 || fw.pairs.is_empty() {
+        return;
+    }
+    let k = ((data[0] as usize) << 8 | data[1] as usize) % fw.pairs.len();
+    let (gi, rule) = fw.pairs[k];
+    let g = &fw.world.grammars[gi];
+    let input: String = if data[2] & 1 == 0 {
+        input_from(g, rule, &data[3..]).0
+    } else {
+        String::from_utf8_lossy(&data[3..]).chars().take(64).collect()
+    };
+    let ctx = &mut fw.ctx;
+    let mut results = vec![];
+    ctx.prop = "C01";
+    results.push(crate::props::p01::check_input(ctx, g, rule, &input));
+    ctx.prop = "C03";
+    results.push(crate::props::p03::check_forms(ctx, g, rule, &input, Form::Str));
+    ctx.prop = "C09";
+    results.push(crate::props::p09::check_case(ctx, g, rule, &input, Form::Str, &mut crate::props::p09::Dump { file: None }));
+    for r in results {
+        if let CaseResult::Violation(v) = r {
+            panic!("VIOLATION-DOC {}", v);
+        }
+    }
+}
